@@ -34,6 +34,9 @@ def check(run):
         if mok.get('dom'):
             t = D.campaign(run)
             run.extra['correspondence'] = {'cases': t['cases'], 'ops': t['ops'], 'mismatches': len(t['mismatches']), 'cached': t.get('cached')}
+            if t.get('pr_fail'):
+                run.tie_breaks.append('%d initial store(s) built from the implementation dump fail the extracted printable_b (hypothesis of printable_reachable)' % t['pr_fail'])
+            run.extra['initial_stores_failing_printable_b'] = t.get('pr_fail', 0)
             if t['mismatches']:
                 run.tie_breaks.append('dom correspondence: model and implementation differ (%d histories; see bin/check C12) e.g. after %s'
                                       % (len(t['mismatches']), D.describe_failure(t['mismatches'][0])))
